@@ -25,7 +25,10 @@ CONSUMES_LAZY_SOURCE = ("filter", "take", "query", "select", "distinct")  # iter
 OP_LEN = {"head": (3,), "tail": (3,), "slice": (4,), "filter": (3, 4), "take": (3, 4), "query": (3,), "select": (3, 4),
           "distinct": (2,), "add": (3,), "batches": (3,), "collect": (6,), "row": (3,), "len": (3,), "append": (3,),
           "iter": (2,), "next": (3,), "zip": (3,), "hash": (2,)}
+MATERIALISES_SOURCE = ("head", "tail", "slice", "batches", "collect", "row", "len", "hash", "iter")
 SCHEMAS = ("list", "tuple", "typed", "aliased", "dicts")
+# collect limits at the numeric boundaries of the compiled collector's `int limit` parameter (compiled.pyx signature)
+BIG_LIMITS = [2**31 - 1, 2**31, 2**31 + 7, 2**63 - 1, 2**63, 10**30, -(2**31) - 1, -(2**63) - 1, True, False]
 LAZIES = ("gen", "iter", "map")
 
 
@@ -57,6 +60,152 @@ def aliases_of(case):
 
 def base_is_lazy(case):
     return bool(lazy_of(case)) and schema_of(case) != "dicts"
+
+
+# ----------------------------------------------------------------------------- which frames still hold their rows
+#
+# The reference semantics of laziness in dataframe.py (the Lean machine `implStep` of Model/FrameProg.lean is the same
+# thing, regenerated from the source; the two are compared on every program).  A frame register is
+#   "eager"          _rows is a list
+#   "lazy"           _rows is a generator of its own that nobody has advanced (generator-backed base; filter / take of
+#                    anything; select of a frame that was a list when select was called)
+#   ("defer", src)   the result of select on a frame that was not a list then: the projection generator reads
+#                    `src._rows` when it is first advanced (the list if src has been materialised by then, src's own
+#                    generator otherwise - and then src is spent)
+#   "spent"          the generator was run, or handed to another frame, by something other than the frame's own
+#                    materialize(): the frame lists nothing any more (the statement protects materialised sources only)
+
+
+class Track:
+    def __init__(self, base_lazy):
+        self.st = ["lazy" if base_lazy else "eager"]
+
+    def copy(self):
+        t = Track(False)
+        t.st = list(self.st)
+        t.sibling_uses = getattr(self, "sibling_uses", 0)
+        return t
+
+    def live(self, s):
+        x = self.st[s]
+        return x in ("eager", "lazy") or isinstance(x, tuple)
+
+    def unread(self, s):
+        x = self.st[s]
+        return x == "lazy" or isinstance(x, tuple)
+
+    def up_chain(self, s):
+        out = []
+        while True:
+            x = self.st[s]
+            if isinstance(x, tuple):
+                out.append(s)
+                s = x[1]
+                continue
+            if x == "lazy":
+                out.append(s)
+            return out
+
+    def closure(self, dead, skip=None):
+        dead = set(dead)
+        for i, x in enumerate(self.st):
+            if isinstance(x, tuple) and x[1] in dead and i != skip:
+                dead.add(i)
+        return dead
+
+    def spend(self, dead):
+        for i in dead:
+            if self.unread(i):
+                self.st[i] = "spent"
+
+    def materialise(self, s):
+        x = self.st[s]
+        if x == "lazy":
+            self.st[s] = "eager"
+        elif isinstance(x, tuple):
+            self.spend(self.closure(self.up_chain(x[1]), skip=s))
+            self.st[s] = "eager"
+
+    def hand_over(self, s):
+        self.spend(self.closure([s]))
+
+    def drain(self, s):
+        self.spend(self.closure(self.up_chain(s)))
+
+    def step(self, op, result_kind, typed_of=None, has_iter=()):
+        """Apply `op`; False when the program is outside the scope (uses a spent frame, appends at the wrong time)."""
+        k = op[0]
+        if k == "next":
+            ok = self.st[op[1]] == "iter"
+            self.st.append(None)
+            return ok
+        s = op[1]
+        if not self.live(s):
+            self.st.append(None)
+            return False
+        x = self.st[s]
+        ok = True
+        res = None
+        if any(isinstance(y, tuple) and y[1] in ([s] + ([op[2]] if k in ("add", "zip") else [])) for y in self.st):
+            self.sibling_uses = getattr(self, "sibling_uses", 0) + 1  # a frame that has an unread selection is used again
+        if k in MATERIALISES_SOURCE:
+            self.materialise(s)
+            res = "eager" if k in FRAME_OPS else ("iter" if k == "iter" else None)
+        elif k == "select":
+            res = "lazy" if x == "eager" else ("defer", s)
+        elif k in ("filter", "take"):
+            if x == "eager":
+                res = "lazy"
+            else:
+                self.hand_over(s)
+                res = ("defer", x[1]) if isinstance(x, tuple) else "lazy"
+        elif k in ("query", "distinct"):
+            if x == "lazy":
+                self.hand_over(s)
+            elif isinstance(x, tuple):
+                self.drain(s)
+            res = "eager"
+        elif k in ("add", "zip"):
+            t = op[2]
+            probe = self.copy()
+            probe.materialise(s)
+            ok = probe.live(t)
+            if k == "zip" or result_kind != "err":
+                self.materialise(s)
+                self.materialise(t)
+            res = "eager" if (k == "add" and result_kind == "frame") else None
+        elif k == "append":
+            ok = x == "eager" and not (typed_of and typed_of[s]) and s not in has_iter and not any(self.unread(i) for i in range(len(self.st)))
+        else:
+            raise InfraError("bad op " + repr(op))
+        if result_kind != "frame" and k in FRAME_OPS:
+            res = None
+        self.st.append(res)
+        return ok
+
+
+def track_case(case, mirror=None):
+    """(in scope?, tracker after the program, order in which the frames are read, tracker after the reads)."""
+    mirror = mirror or run_mirror(case)
+    t = Track(base_is_lazy(case))
+    typed_of = [kind_of(case) == "typed"]
+    has_iter = set()
+    ok = True
+    for i, op in enumerate(case["ops"]):
+        ok = t.step(op, mirror[i + 1][0], typed_of, has_iter) and ok
+        if op[0] == "iter":
+            has_iter.add(op[1])
+        typed_of.append(op[0] in FRAME_OPS and op[0] != "select" and typed_of[op[1]])
+    after = t.copy()
+    order = [i for i, m in enumerate(mirror) if m[0] == "frame"]
+    if case.get("order") == "rev":
+        order.reverse()
+    plan = []
+    for i in order:
+        if t.live(i):
+            plan.append(i)
+            t.materialise(i)
+    return ok, after, plan, t
 
 
 # ----------------------------------------------------------------------------- mirror (the list spec)
@@ -241,10 +390,9 @@ def arg_form(values, form, what="names"):
     raise InfraError("bad argument form %r" % (form,))
 
 
-def run_impl(case):
-    """Returns per step ('frame', df) / ('val', v) / ('err', cls) / ('iter', it) plus bookkeeping for reading frames."""
+def run_impl(case, after):
+    """`after`: the tracker after the program (which frames are spent). Returns per step ('frame', df) / ('val', v) / ('err', cls) / ('iter', it) plus bookkeeping for reading frames."""
     frames = [("frame", make_base(case))]
-    spent = [False]
     snapshots = {}  # index -> copy of rows, for materialised frames
     if isinstance(frames[0][1]._rows, list):
         snapshots[0] = [list(r) for r in frames[0][1]._rows]
@@ -256,10 +404,8 @@ def run_impl(case):
         if any(frames[s_][0] != want for s_ in srcs):
             # an earlier step failed on the implementation (already reported there)
             frames.append(("err", "SourceUnavailable"))
-            spent.append(False)
             continue
         df = frames[si][1]
-        was_lazy = {s_: not isinstance(frames[s_][1]._rows, list) for s_ in srcs} if k != "next" else {}
         try:
             if k == "head":
                 out = ("frame", df.head(op[2]))
@@ -293,7 +439,7 @@ def run_impl(case):
                 # A generator-backed frame that has not been read yet would see (or not see) the new row
                 # depending on when it is read; the statement does not say which, so such programs are
                 # out of scope: the generator avoids them and the oracle skips them.
-                if any(f[0] == "frame" and not isinstance(f[1]._rows, list) and not sp for f, sp in zip(frames, spent)):
+                if any(f[0] == "frame" and not isinstance(f[1]._rows, list) and after.st[j] != "spent" for j, f in enumerate(frames)):
                     snapshots["ambiguous"] = True
                 df.append(tuple(op[2]))
                 out = ("val", None)
@@ -324,18 +470,13 @@ def run_impl(case):
             raise
         except Exception as e:
             out = ("err", type(e).__name__)
-        # a generator-backed source that was iterated without being materialised is spent
-        for s_ in srcs:
-            if was_lazy.get(s_) and k in CONSUMES_LAZY_SOURCE:
-                spent[s_] = True
         frames.append(out)
-        spent.append(False)
         # every frame that is materialised now and has no snapshot yet gets one (sources are
         # materialised by the operators that read them)
         for j, f in enumerate(frames):
             if f[0] == "frame" and j not in snapshots and isinstance(f[1]._rows, list):
                 snapshots[j] = [list(r) for r in f[1]._rows]
-    return frames, spent, snapshots
+    return frames, snapshots
 
 
 def read_frame(df, how):
@@ -363,13 +504,17 @@ def model_line(case):
     ops = []
     for op in case["ops"]:
         if op[0] == "collect":
-            ops.append(["collect", op[1], op[2], op[3]])
+            ops.append(["collect", op[1], op[2], int(op[3]) if isinstance(op[3], bool) else op[3]])
         elif op[0] in ("select", "filter", "take"):
             ops.append(list(op[:3]))
         elif op[0] == "len":
             ops.append(["len", op[1], op[2] % 3])
         else:
             ops.append(list(op))
+    # the reads after the program are program steps too (every read materialises): the machine and the scope of
+    # the refinement theorem cover them
+    for i in track_case(case)[2]:
+        ops.append(["len", i, 0])
     return "C03 prog " + wire.line(case["names"], kind_of(case), aliases_of(case), base_is_lazy(case), case["rows"], ops)
 
 
@@ -410,6 +555,8 @@ def valid_case(c):
                 return False
             if k in ("add", "zip") and (not isinstance(op[2], int) or not (0 <= op[2] < nres) or kinds[op[2]] != "frame"):
                 return False
+            if k in ("filter", "take", "select") and not isinstance(op[2], list):
+                return False
             if k == "filter" and (not all(isinstance(b, bool) for b in op[2]) or (len(op) == 4 and op[3] not in ("list", "tuple", "numpy", "iter"))):
                 return False
             if k == "take" and (not all(isinstance(b, int) and not isinstance(b, bool) for b in op[2])
@@ -434,7 +581,9 @@ def valid_case(c):
             kinds.append("frame" if k in FRAME_OPS else ("iter" if k == "iter" else "val"))
             typed_of.append(k in FRAME_OPS and k != "select" and typed_of[op[1]])
             nres += 1
-        return True
+        if c.get("order") not in (None, "fwd", "rev"):
+            return False
+        return track_case(c)[0]
     except Exception:
         return False
 
@@ -447,10 +596,10 @@ def w_of(case, reg):
     return len(res[reg][1])
 
 
-def alias_probe(frames, mirror, spent):
+def alias_probe(frames, mirror, plan):
     """No two frames share their rows: after the program (every live frame has been read, so all are materialised)
     a sentinel row is appended to each names-only frame in turn; every other frame must list what it listed before."""
-    live = [(i, out[1]) for i, (out, mir) in enumerate(zip(frames, mirror)) if out[0] == "frame" and mir[0] == "frame" and not spent[i]]
+    live = [(i, out[1]) for i, (out, mir) in enumerate(zip(frames, mirror)) if out[0] == "frame" and mir[0] == "frame" and i in plan]
     if len(live) < 2:
         return None
     try:
@@ -481,19 +630,21 @@ def alias_probe(frames, mirror, spent):
 def check_case(ctx_or_none, case, want_state=False):
     """Returns (clause or None, impl summary, mirror[, state]). Raises InfraError on harness faults."""
     mirror0 = run_mirror(case)
-    frames, spent, snapshots = run_impl(case)
+    in_scope, after, plan, final = track_case(case, mirror0)
+    frames, snapshots = run_impl(case, after)
     # the mirror's iterator registers were advanced by the program; keep their final positions
     mirror = mirror0
-    if snapshots.pop("ambiguous", False):
-        out = (None, [["skipped", "append while an unread generator-backed frame exists"]], mirror)
+    if snapshots.pop("ambiguous", False) or not in_scope:
+        out = (None, [["skipped", "append while an unread generator-backed frame exists" if in_scope else "program uses a spent frame"]], mirror)
         return out + (None,) if want_state else out
-    impl_summary = []
+    impl_summary = [None] * len(frames)
     clause = None
     how = case.get("read", 0)
+    # laziness of the objects after the program against the reference semantics (soft: recorded only)
     state = [None] * len(frames)
     for i, (out, mir) in enumerate(zip(frames, mirror)):
-        if out[0] == "frame":
-            state[i] = "spent" if spent[i] else ("lazy" if not isinstance(out[1]._rows, list) else "eager")
+        if out[0] == "frame" and mir[0] == "frame" and after.st[i] != "spent":
+            state[i] = (("lazy" if not isinstance(out[1]._rows, list) else "eager"), "lazy" if after.unread(i) else "eager")
 
     def drain_iterators():
         nonlocal clause
@@ -513,35 +664,39 @@ def check_case(ctx_or_none, case, want_state=False):
     for i, (out, mir) in enumerate(zip(frames, mirror)):
         opn = case["ops"][i - 1][0] if i else "base"
         if out[0] == "err":
-            impl_summary.append(["err", out[1]])
+            impl_summary[i] = ["err", out[1]]
             if mir[0] != "err":
                 clause = clause or "step %d (%s) raised %s" % (i, opn, out[1])
             elif mir[1] != out[1]:
                 clause = clause or "step %d (%s) raised %s, expected %s" % (i, opn, out[1], mir[1])
             continue
         if mir[0] == "err":
-            impl_summary.append([out[0], "?"])
+            impl_summary[i] = [out[0], "?"]
             clause = clause or "step %d (%s) did not raise %s" % (i, opn, mir[1])
             continue
         if out[0] == "val":
-            impl_summary.append(["val", out[1]])
+            impl_summary[i] = ["val", out[1]]
             if out[1] != mir[1]:
                 clause = clause or "step %d (%s) returned a different value than the list model" % (i, opn)
             continue
         if out[0] == "iter":
-            impl_summary.append(["iter"])
+            impl_summary[i] = ["iter"]
             continue
-        # frame
-        if spent[i]:
-            impl_summary.append(["frame", "spent"])
+        impl_summary[i] = ["frame", "spent"]
+    # the frames, in the order of the read plan (register order or its reverse): a read materialises the frame, and
+    # reading a deferred selection of a frame that is still lazily backed spends that frame (it is not read then)
+    for i in plan:
+        out, mir = frames[i], mirror[i]
+        opn = case["ops"][i - 1][0] if i else "base"
+        if out[0] != "frame" or mir[0] != "frame":
             continue
         try:
             names, rows, ln, rc, shape, peek = read_frame(out[1], (how + i) % 4)
         except Exception as e:
-            impl_summary.append(["frame", "read-raised", type(e).__name__])
+            impl_summary[i] = ["frame", "read-raised", type(e).__name__]
             clause = clause or "reading frame %d raised %s" % (i, type(e).__name__)
             continue
-        impl_summary.append(["frame", names, rows])
+        impl_summary[i] = ["frame", names, rows]
         if rows != mir[3]:
             clause = clause or "frame %d (%s) lists different rows than the list model%s" % (
                 i, opn, " (read after an abandoned iteration)" if (how + i) % 4 == 3 else "")
@@ -563,9 +718,9 @@ def check_case(ctx_or_none, case, want_state=False):
         if not isinstance(now, list) or [list(r) for r in now] != snap:
             clause = clause or "materialised source frame %d was altered" % i
     if clause is None:
-        clause = alias_probe(frames, mirror, spent)
+        clause = alias_probe(frames, mirror, set(plan))
     if want_state:
-        return clause, impl_summary, mirror, state
+        return clause, impl_summary, mirror, (state, final, len(plan))
     return clause, impl_summary, mirror
 
 
@@ -594,8 +749,15 @@ def compare_model(case, mirror, mo, state=None, ctx=None):
     if not mo.startswith("ok "):
         raise InfraError("model rejected case %r: %r" % (case, mo))
     spec, mach, wf = wire.dec_all(mo[3:])[:3]
+    objects, final, nreads = state if state is not None else (None, None, 0)
+    if state is not None:
+        # the reads after the program travel as trailing `len` steps
+        if len(spec) != len(mirror) + nreads:
+            raise InfraError("model returned %d results for %d steps and %d reads" % (len(spec), len(mirror), nreads))
+        spec = spec[: len(mirror)]
+        mach = mach[: len(mirror)] if mach else mach
     if ctx is not None:
-        # is the program inside the scope of C03.eval_refines (wfProgB, sound by C03.wfProgB_sound)?
+        # is the program (with its reads) inside the scope of C03.eval_refines (wfProgB, sound by C03.wfProgB_sound)?
         ctx.hit("refinement-theorem-scope:" + ("inside" if wf else "outside"))
     if len(spec) != len(mirror) or (mach and len(mach) != len(mirror)):
         raise InfraError("model returned %d/%d results for %d steps" % (len(spec), len(mach), len(mirror)))
@@ -616,12 +778,24 @@ def compare_model(case, mirror, mo, state=None, ctx=None):
             ctx.disagree(case, mirror, spec, what="the model regenerated from the source differs from the list specification at step %d" % i)
             return spec
     if state is not None and ctx is not None:
-        # the state machine's view of laziness against the objects (soft: recorded only)
-        for i, (mm, st) in enumerate(zip(mach, state)):
-            if st is None:
+        # laziness of the objects after the program against the reference semantics (soft: laziness is not an output)
+        for st in objects:
+            if st is not None:
+                ctx.hit("lazy-state:" + ("agrees" if st[0] == st[1] else "differs(object %s/reference %s)" % st))
+        # the Lean machine after program and reads against the harness's tracker: two renderings of the same reference
+        # semantics (the machine's tables are regenerated from the source)
+        for i, (mm, mir) in enumerate(zip(mach, mirror)):
+            if mir[0] != "frame":
                 continue
-            mst = "spent" if mm[0] == "spent" else ("lazy" if mm[0] == "frame" and mm[1] else "eager")
-            ctx.hit("lazy-state:" + ("agrees" if mst == st else "differs(%s/%s)" % (st, mst)))
+            t = final.st[i]
+            mst = "spent" if mm[0] == "spent" else ("defer" if mm[0] == "defer" else ("lazy" if mm[0] == "frame" and mm[1] else ("eager" if mm[0] == "frame" else "other")))
+            tst = "defer" if isinstance(t, tuple) else t
+            if mst != tst:
+                if source_as_pinned():
+                    raise InfraError("Lean machine and harness tracker differ at register %d of %r: %s vs %s" % (i, case, mst, tst))
+                ctx.hit("machine-vs-tracker:differs(%s/%s)" % (mst, tst))
+            else:
+                ctx.hit("machine-vs-tracker:agrees")
     return spec
 
 
@@ -633,7 +807,7 @@ def evaluate(ctx, cases):
     for c, mo in zip(cases, mouts):
         clause, impl, mirror, state = check_case(ctx, c, want_state=True)
         if clause is None and impl and impl[0] and impl[0][0] == "skipped":
-            ctx.hit("skipped:ambiguous-append")
+            ctx.hit("skipped:" + impl[0][1])
         elif clause is None:
             # implementation = list spec here, so the Lean model (whose window arithmetic, comprehensions and
             # laziness table are regenerated from the source) must agree with both; a difference now can only
@@ -644,6 +818,14 @@ def evaluate(ctx, cases):
             ctx.hit("op:" + op[0])
             if len(op) == 4 and op[0] in ("select", "filter", "take"):
                 ctx.hit("argform:%s/%s" % (op[0], op[3]))
+        _ok, _after, _plan, _final = track_case(c)
+        ctx.hit("siblings:" + ("a frame with an unread selection is used again" if getattr(_after, "sibling_uses", 0) else "no"))
+        ctx.hit("read-order:" + (c.get("order") or "fwd"))
+        ctx.hit("registers-spent-by-the-end:%d" % min(sum(1 for x in _final.st if x == "spent"), 3))
+        for op in c["ops"]:
+            if op[0] == "collect" and op[3] is not None:
+                lim = op[3]
+                ctx.hit("collect-limit:" + ("bool" if isinstance(lim, bool) else "negative" if lim < 0 else "< 2**31" if lim < 2**31 else "2**31 .. 2**63-1" if lim < 2**63 else ">= 2**63"))
         ctx.hit("rows:%d" % min(len(c["rows"]), 9))
         ctx.hit("cols:%d" % len(c["names"]))
         ctx.hit("backing:%s/schema:%s" % (lazy_of(c) or "list", schema_of(c)))
@@ -677,7 +859,7 @@ ALL_OPS = ["head", "tail", "slice", "filter", "take", "query", "select", "distin
            "iter", "next", "next", "zip", "select", "hash"]
 
 
-def gen_op(rng, kinds, names_of, nrows_of, allow=None, extra_names=()):
+def gen_op(rng, kinds, names_of, nrows_of, allow=None, extra_names=(), prefer=None):
     """One operator applied to a random earlier frame (or `next` on an open iterator)."""
     srcs = [i for i, k in enumerate(kinds) if k == "frame"]
     its = [i for i, k in enumerate(kinds) if k == "iter"]
@@ -689,9 +871,22 @@ def gen_op(rng, kinds, names_of, nrows_of, allow=None, extra_names=()):
             it = rng.choice(its)
             return ["next", it, rng.choice([0, 1, 1, 2, 3, 50])]
     s = rng.choice(srcs)
+    if prefer:
+        s = rng.choice([i for i in prefer if i in srcs] or srcs)
     n = nrows_of[s]
     names = names_of[s]
     w = len(names)
+    huge = rng.random() < 0.03  # sizes / offsets / indexes beyond any machine integer: plain Python arithmetic must not mind
+    if huge and k in ("head", "tail"):
+        return [k, s, rng.choice([2**31, 2**63, 2**64 + 1])]
+    if huge and k == "slice":
+        return [k, s, rng.choice([-(2**63), 2**63, -(2**31) - 1, 0, -1]), rng.choice([None, 2**63, 2**31])]
+    if huge and k == "batches":
+        return [k, s, rng.choice([2**31, 2**63])]
+    if huge and k == "row":
+        return [k, s, rng.choice([2**63, -(2**63) - 1])]
+    if huge and k == "take":
+        return [k, s, [0, 2**63, -(2**63)], rng.choice(["list", "tuple", "set", "frozenset"])]
     if k in ("head", "tail"):
         return [k, s, rng.choice([0, 1, 2, n, n + 1, n + 2, 2 * n, 2 * n + 1, max(n - 1, 0), rng.randint(0, 2 * n + 3)])]
     if k == "slice":
@@ -735,7 +930,9 @@ def gen_op(rng, kinds, names_of, nrows_of, allow=None, extra_names=()):
         if single and not cols:
             cols = [0]
         limit = rng.choice([None, None, -1, 0, 1, n, n + 1, max(n - 1, 0), rng.randint(-2, n + 2)])
-        return [k, s, cols, limit, "single" if single else "multi", rng.random() < 0.5]
+        if rng.random() < 0.2:
+            limit = rng.choice(BIG_LIMITS)  # the edges of the C integer the compiled collector takes its limit in
+        return [k, s, cols, limit, "single" if single else "multi", rng.random() < 0.5 or limit is not None]
     if k == "row":
         return [k, s, rng.randint(-n - 1, n)]
     if k == "append":
@@ -809,36 +1006,71 @@ def gen_case(rng, max_rows=6, max_cols=4, max_ops=4, big=False):
     if al is not None:
         case["aliases"] = al
     extra = [a for x in (al or []) for a in x]
+    if rng.random() < 0.35:
+        case["order"] = "rev"
     kinds, names_of, nrows_of = ["frame"], [case["names"]], [n]
-    spent = [False]
-    lazy = [base_is_lazy(case)]
+    trk = Track(base_is_lazy(case))
     typed_of = [kind_of(case) == "typed"]
     has_iter = set()
     for _ in range(rng.randint(1, max_ops)):
         for _try in range(8):
-            op = gen_op(rng, kinds, names_of, nrows_of, extra_names=extra)
-            srcs = [] if op[0] == "next" else [op[1]] + ([op[2]] if op[0] in ("add", "zip") else [])
-            if any(spent[s] for s in srcs):
-                continue  # a generator-backed frame that has been consumed is not read again
-            if op[0] == "append" and (typed_of[op[1]] or op[1] in has_iter or any(l and not sp for l, sp in zip(lazy, spent))):
-                continue  # append needs a materialised, names-only frame without an open iterator (typed frames validate: C05)
-            break
+            # now and then a second operator on a frame that already has an unread selection / filter (siblings)
+            prefer = [i for i in range(len(trk.st)) if trk.unread(i)] if rng.random() < 0.3 else None
+            op = gen_op(rng, kinds, names_of, nrows_of, extra_names=extra, prefer=prefer)
+            probe = trk.copy()
+            res_kind = run_mirror({**case, "ops": case["ops"] + [op]})[-1][0]
+            if probe.step(op, res_kind, typed_of, has_iter):
+                break  # inside the scope: no spent frame used, append only to a materialised names-only frame
         else:
             break
         track(kinds, names_of, nrows_of, case, op)
+        trk.step(op, kinds[-1], typed_of, has_iter)
         typed_of.append(op[0] in FRAME_OPS and op[0] != "select" and typed_of[op[1]])
         if op[0] == "iter":
             has_iter.add(op[1])
-        for s in srcs:
-            if lazy[s]:
-                if op[0] in CONSUMES_LAZY_SOURCE:
-                    spent[s] = True
-                elif not (op[0] == "add" and kinds[-1] == "err"):
-                    lazy[s] = False
         case["ops"].append(op)
-        lazy.append(op[0] in LAZY_RESULT)
-        spent.append(False)
     return case
+
+
+def dag_small():
+    """Two operators applied to the same earlier result (siblings), read in either order: a selection / filter /
+    take of a frame, then another use of that frame (or the other way round), on list- and lazily backed frames."""
+    count = 0
+    firsts = [["select", 0, ["c1", "c0"]], ["select", 0, ["c0"], "bare"], ["filter", 0, [True, False, True]], ["take", 0, [0, 2], "set"]]
+    for n in range(0, 4):
+        rows = [[i, -i] for i in range(n)]
+        seconds = [["head", 0, 1], ["head", 0, n + 1], ["tail", 0, 1], ["slice", 0, -1, None], ["len", 0, 0], ["len", 0, 1], ["row", 0, 0],
+                   ["collect", 0, ["c0"], None, "multi", False], ["collect", 0, [1], 1, "single", True], ["batches", 0, 2], ["hash", 0],
+                   ["iter", 0], ["add", 0, 0], ["zip", 0, 0], ["select", 0, ["c1"]], ["select", 0, ["c0", "c1"], "tuple"]]
+        progs = []
+        allc = ["select", 0, ["c0", "c1"]]
+        for x in (["add", 0, 1], ["add", 1, 0], ["zip", 0, 1], ["zip", 1, 0]):
+            # the selection of every column carries the same schema: it can be added to / zipped with its source
+            progs.append([allc, x])
+            progs.append([allc, x, ["len", 0, 0]])
+        for a in firsts:
+            progs.append([a, list(a)])  # the same operator twice on the same frame
+            progs.append([a, list(a), ["head", 0, 1]])
+            for b in seconds:
+                progs.append([a, b])
+                progs.append([b, a])
+                # the same one level down: the siblings hang off a derived (lazily backed) frame
+                for mid in (["filter", 0, [True] * n], ["select", 0, ["c0", "c1"]], ["take", 0, list(range(n)), "list"]):
+                    a1 = [a[0], 1] + a[2:]
+                    b1 = [b[0], 1] + ([1] if b[0] in ("add", "zip") else b[2:])
+                    progs.append([mid, a1, b1])
+            # a selection of a selection, then the first frame is used; a filter of a selection (the generator is handed on)
+            progs.append([a, ["select", 1, ["c0"]], ["head", 0, 2]])
+            progs.append([a, ["select", 1, ["c0"]], ["len", 1, 0]])
+            progs.append([a, ["filter", 1, [True] * n], ["tail", 0, 2]])
+            progs.append([a, ["distinct", 1], ["tail", 0, 2]])
+        for prog in progs:
+            for lazy in (False, "gen", "iter", "map"):
+                for order in ("fwd", "rev"):
+                    c = {"names": ["c0", "c1"], "schema": "list", "lazy": lazy, "rows": rows, "ops": prog, "read": count % 4, "order": order}
+                    count += 1
+                    if valid_case(c):
+                        yield c
 
 
 def exhaustive_small(ctx):
@@ -870,6 +1102,12 @@ def exhaustive_small(ctx):
             for cols in [[0], [1], [1, 0], [0, 0, 1], ["c1"], [2], [-1], []]:
                 for lim in [None, -1, 0, 1, n, n + 1]:
                     ops.append(["collect", 0, cols, lim, "multi", True])
+            for big in (2**31, 2**63):
+                ops += [["head", 0, big], ["tail", 0, big], ["slice", 0, -big, big], ["slice", 0, big, None], ["slice", 0, -1, big],
+                        ["batches", 0, big], ["row", 0, big], ["row", 0, -big - 1], ["take", 0, [0, big]]]
+            for lim in BIG_LIMITS:
+                ops.append(["collect", 0, [1, 0], lim, "multi", True])
+                ops.append(["collect", 0, ["c1"], lim, "single", True])
             for i in range(-n - 1, n + 1):
                 ops.append(["row", 0, i])
             progs = [[op] for op in ops]
@@ -921,6 +1159,15 @@ def run(ctx):
             evaluate(ctx, batch)
             batch = []
     evaluate(ctx, batch)
+    n_dag = 0
+    batch = []
+    for c in dag_small():
+        batch.append(c)
+        n_dag += 1
+    evaluate(ctx, batch)
+    ctx.note("sibling_scope", "two operators on the same earlier result (a selection / filter / take, then every materialising or "
+             "iterating use of the same frame, and the reverse), directly on the base and one level down, frames of 0..3 rows, "
+             "list- / generator- / iterator- / map-backed, frames read in register order and in reverse (%d cases)" % n_dag)
     ctx.note("exhaustive_scope", "every single operator with every small argument, and every partial / interleaved iteration "
              "prefix followed by another use, on every frame of 0..%d rows x 2 columns over a 3-row alphabet with hash-colliding "
              "rows; schema given as list, tuple, RelationSchema with and without aliases, dictionaries; list-, generator-, "
